@@ -1,1 +1,2 @@
 import PelGen.Live
+import PelGen.GenPeltool
